@@ -1,83 +1,59 @@
-import PsecModel.Lemmas.Kdf
-import PsecModel.Props.C01
+import PsecModel.Lemmas.SpecValid2
 /-!
 # C03 — TR-31 key blocks interoperate with an independent implementation of the specification (partial)
 
 The independent implementation is `Spec/TR31.lean` + `Spec/CMAC.lean` (SP 800-38B CMAC for messages of any length, the
-TR-31 counter-mode KDF, the key variants, the key-block grammar with every encoding freedom).
+TR-31 counter-mode KDF, the key variants, the key-block grammar with every encoding freedom, and a parser / verifier
+written from the grammar).
 
-**Proved here** (for every lawful cipher): every cryptographic binding step of psec equals the specification's —
-the CMAC subkeys, the hand-built CMAC ("XOR K1 into the last block, then CBC-MAC with padding 1") for TDES and AES,
-the key derivations for versions B and D (all KBPK sizes) and the variants for A/C, and the authenticator of each version
-as `Spec.TR31.tag`.
+**Proved** (for every lawful cipher):
+* `Lemmas/Binding.lean` — every cryptographic binding step of psec equals the specification's: the CMAC subkeys, the
+  hand-built CMAC for TDES and AES, the key derivations for versions B and D (all KBPK sizes), the variants for A/C, the
+  authenticator of each version as `Spec.TR31.tag`;
+* `wrap_is_spec_valid` (this file, proof in `Lemmas/SpecValid{,2}.lean`) — **every key block psec's `wrap` emits is accepted by
+  the specification's parser and verifier, which recovers exactly the key and the header**: all four versions, every KBPK
+  size, every header / optional-block layout (short and extended lengths, pad block), every key, mask and entropy.
 
-**Not proved, validated on every run by the two-way correspondence** (`spec.tr31_build` → psec `unwrap`, psec `wrap` →
-`Spec.TR31.unwrap`, third-party vectors, OpenSSL CMAC): that the specification's *grammar parser* accepts what psec's
-serializer emits and vice versa (`wrap_is_spec_valid`, `spec_valid_unwraps`), and that the specification file is a faithful
-reading of the printed standard.
+**Not proved, validated on every run by the correspondence** (`spec.tr31_build` → psec `unwrap`): that psec's `unwrap` accepts
+*every* block the specification can build with its encoding freedoms (`spec_valid_unwraps`, kept below as a proposition), and
+that the specification file is a faithful reading of the printed standard (third-party vectors, OpenSSL CMAC).
 -/
 namespace Psec.Props.C03
 open Psec Psec.Tr31 Psec.Spec
 
-theorem encodeAscii_eq (hdr : PyStr) (hb : Bytes) (h : encodeAscii hdr = some hb) : hb = Spec.TR31.asciiBytes hdr := by
-  unfold encodeAscii at h
-  split at h
-  · injection h with h; exact h.symm
-  · cases h
+/-- **psec → specification**: what `wrap` emits, the specification opens — to the same key and header -/
+theorem wrap_is_spec_valid (c : Ciphers) (hc : c.Lawful) (kbpk : Bytes) (h : Header) (hw : h.WF) (hnp : NoPadIds h.blocks)
+    (key : Bytes) (mask : Option Int) (entropy : Bytes) (s : PyStr)
+    (hwrap : wrapFn c kbpk (.obj h) key mask entropy = .ok s) :
+    Spec.TR31.unwrap c kbpk s = some (h, key) :=
+  wrap_is_spec_valid' c hc kbpk h hw hnp key mask entropy s hwrap
 
-/-- psec's CMAC construction for version B = SP 800-38B CMAC with TDES over `ascii(header) ‖ clear key data` = the specification's tag -/
-theorem bMac_eq_tag (c : Ciphers) (hc : c.Lawful) (kbak : Bytes) (hdr : PyStr) (hb clear : Bytes)
-    (hk : tdesKeyOk kbak = true) (hea : encodeAscii hdr = some hb)
-    (hlen : 8 ≤ (hb ++ clear).length) (hmod : (hb ++ clear).length % 8 = 0) (enc : Bytes) :
-    bGenerateMac c kbak hdr clear = .ok (Spec.TR31.tag c 66 kbak hdr clear enc) := by
-  rw [cmacOver_des_eq c hc kbak hdr hb clear hk hea hlen hmod, encodeAscii_eq hdr hb hea]
+/-- so psec and the specification agree on every block psec emits -/
+theorem wrap_opened_alike (c : Ciphers) (hc : c.Lawful) (kbpk : Bytes) (h : Header) (hw : h.WF) (hnp : NoPadIds h.blocks)
+    (key : Bytes) (mask : Option Int) (entropy : Bytes) (s : PyStr)
+    (hwrap : wrapFn c kbpk (.obj h) key mask entropy = .ok s) :
+    (unwrapFn c kbpk s).toOption = Spec.TR31.unwrap c kbpk s := by
+  rw [wrap_is_spec_valid c hc kbpk h hw hnp key mask entropy s hwrap,
+    Props.C01.wrap_unwrap c hc kbpk h hw hnp key mask entropy s hwrap]
   rfl
 
-/-- version D: AES-CMAC -/
-theorem dMac_eq_tag (c : Ciphers) (hc : c.Lawful) (kbak : Bytes) (hdr : PyStr) (hb clear : Bytes)
-    (hk : aesKeyOk kbak = true) (hea : encodeAscii hdr = some hb)
-    (hlen : 16 ≤ (hb ++ clear).length) (hmod : (hb ++ clear).length % 16 = 0) (enc : Bytes) :
-    dGenerateMac c kbak hdr clear = .ok (Spec.TR31.tag c 68 kbak hdr clear enc) := by
-  rw [cmacOver_aes_eq c hc kbak hdr hb clear hk hea hlen hmod, encodeAscii_eq hdr hb hea]
-  rfl
-
-/-- versions A and C: 4-byte TDES CBC-MAC over `ascii(header) ‖ encrypted key data` -/
-theorem cMac_eq_tag (c : Ciphers) (hc : c.Lawful) (kbak : Bytes) (hdr : PyStr) (hb enc : Bytes) (ver : Nat)
-    (h1 : ver ≠ 66) (h2 : ver ≠ 68) (hk : tdesKeyOk kbak = true) (hea : encodeAscii hdr = some hb) (clear : Bytes) :
-    cGenerateMac c kbak hdr enc = .ok (Spec.TR31.tag c ver kbak hdr clear enc) := by
-  unfold cGenerateMac Spec.TR31.tag
-  rw [hea]; simp only [h1, h2, if_false]
-  have e4 : ((4 : Nat) : Int) = 4 := rfl
-  have := Props.C07.cbcMac_des_eq_mac1 c hc kbak (hb ++ enc) 1 4 _ (Or.inr rfl) hk (Or.inl rfl) (fun h => by cases h)
-  rw [e4] at this
-  rw [this, encodeAscii_eq hdr hb hea]
-  rfl
-
-/-- the key derivations -/
-theorem deriveB_eq_kdf (c : Ciphers) (hc : c.Lawful) (kbpk : Bytes) (hk : kbpk.length = 16 ∨ kbpk.length = 24) :
-    bDerive c kbpk = .ok (Spec.TR31.deriveKeys c 66 kbpk) := bDerive_eq_kdf c hc kbpk hk
-theorem deriveD_eq_kdf (c : Ciphers) (hc : c.Lawful) (kbpk : Bytes) (hk : kbpk.length = 16 ∨ kbpk.length = 24 ∨ kbpk.length = 32) :
-    dDerive c kbpk = .ok (Spec.TR31.deriveKeys c 68 kbpk) := dDerive_eq_kdf c hc kbpk hk
-theorem deriveAC_eq_variant (c : Ciphers) (kbpk : Bytes) :
-    cDerive kbpk = Spec.TR31.deriveKeys c 65 kbpk ∧ cDerive kbpk = Spec.TR31.deriveKeys c 67 kbpk :=
-  ⟨cDerive_eq_variant c kbpk 65 (by decide) (by decide), cDerive_eq_variant c kbpk 67 (by decide) (by decide)⟩
-
-/-- the CMAC subkeys (`K1`, `K2`) psec derives through integer shifts are the standard's `L·x`, `L·x²` -/
-theorem subkeys_eq (c : Ciphers) (hc : c.Lawful) (key : Bytes) :
-    (tdesKeyOk key = true → desCmacSubkey c key = .ok (dbl 0x1B (c.tdesE key (zeros 8)), dbl 0x1B (dbl 0x1B (c.tdesE key (zeros 8))))) ∧
-    (aesKeyOk key = true → aesCmacSubkey c key = .ok (dbl 0x87 (c.aesE key (zeros 16)), dbl 0x87 (dbl 0x87 (c.aesE key (zeros 16))))) :=
-  ⟨fun hk => (subkey_des c hc key hk).1, fun hk => (subkey_aes c hc key hk).1⟩
-
-/-- the two grammar-level statements that are validated by correspondence, kept visible as propositions (not asserted) -/
-def wrap_is_spec_valid (c : Ciphers) : Prop :=
-  ∀ kbpk h key mask e s, h.WF → NoPadIds h.blocks → wrapFn c kbpk (.obj h) key mask e = .ok s →
-    Spec.TR31.unwrap c kbpk s = some (h, key)
+/-- the remaining grammar-level statement, validated by correspondence, kept visible as a proposition (not asserted) -/
 def spec_valid_unwraps (c : Ciphers) : Prop :=
   ∀ kbpk h forms padMode key pad lower, h.WF → NoPadIds h.blocks →
     (2 + key.length + pad.length) % (Spec.TR31.bsOf (h.versionId.headD 0)) = 0 →
     (Spec.TR31.build c kbpk h forms padMode key pad lower).length ≤ 9999 →
     Spec.TR31.kbpkOk (h.versionId.headD 0) kbpk = true →
     unwrapFn c kbpk (Spec.TR31.build c kbpk h forms padMode key pad lower) = .ok (h, key)
+
+/-- non-vacuity: a concrete successful wrap (reference ciphers, version D, 24-byte KBPK, one optional block) — the hypotheses
+of `wrap_is_spec_valid` are met by it (`decide`), so the specification opens it -/
+example :
+    (wrapFn refCiphers [0x00, 0x01, 0x02, 0x03, 0x04, 0x05, 0x06, 0x07, 0x08, 0x09, 0x0a, 0x0b, 0x0c, 0x0d, 0x0e, 0x0f, 0x10, 0x11, 0x12, 0x13, 0x14, 0x15, 0x16, 0x17]
+      (.obj { versionId := [68], keyUsage := [80, 48], algorithm := [65], modeOfUse := [69],
+              versionNum := [48, 48], exportability := [78], reserved := [48, 48],
+              blocks := [([75, 83], [48, 48, 54, 48, 52, 66, 49, 50, 48, 70, 57, 50, 57, 50, 56, 48, 48, 48, 48, 48])] })
+      [0x3f, 0x41, 0x9e, 0x1c, 0xb7, 0x07, 0x94, 0x42, 0xaa, 0x37, 0x47, 0x4c, 0x2e, 0xfb, 0xf8, 0xb8] none [0x1c, 0x29, 0x65, 0x47, 0x3c, 0xe2, 0x06, 0xbb, 0x85, 0x5b, 0x01, 0x53, 0x37, 0x82, 0x00, 0x11, 0x22, 0x33, 0x44, 0x55, 0x66, 0x77, 0x88, 0x99, 0xaa, 0xbb, 0xcc, 0xdd, 0xee, 0xff]).toOption.isSome = true := by
+  decide +kernel
 
 /-! ## the specification's CMAC meets the SP 800-38B AES-128 examples (kernel-evaluated, reference AES) -/
 example : Spec.cmac (AES.aesE (hexb "2b7e151628aed2a6abf7158809cf4f3c")) 16 [] = hexb "bb1d6929e95937287fa37d129b756746" := by decide +kernel
